@@ -25,6 +25,9 @@ mod c18_tcp;
 mod c19_udp;
 mod c20_configfile;
 mod common;
+mod lab;
+mod peers;
+mod smoke;
 
 use std::{collections::BTreeMap, path::PathBuf, time::{Duration, Instant}};
 
@@ -52,6 +55,7 @@ fn dispatch(name: &str, ctx: &Ctx) -> Option<Report> {
         "C18" => c18_tcp::run(ctx),
         "C19" => c19_udp::run(ctx),
         "C20" => c20_configfile::run(ctx),
+        "smoke" => smoke::run(ctx),
         _ => return None,
     })
 }
